@@ -17,7 +17,7 @@ from ..forkpool import prepare_imports, run_cases
 from ..lattice import ORIGIN0 as _O0
 
 # seven origin-0 embeddings plus two magnitudes: 1e-6 and 1e9 units (absolute tolerances and slacks show there)
-ORIGIN0 = _O0 + ["micro", "huge"]
+ORIGIN0 = _O0 + ["micro", "huge", "mega"]
 from .. import tlc
 from .die_common import metric_regs, die_size, run_die_case, random_description
 
